@@ -106,7 +106,7 @@ func tTag(c context, s []byte) (context, int) {
 		if specialElements[c.element.name] {
 			ret.state = stateSpecialElementBody
 		}
-		if c.element.name != "" && voidElements[c.element.name] {
+		if c.element.name != "" && allVoid(c.element) {
 			// Special case: end of start tag of a void element.
 			// Discard unnecessary state, since this element have no content.
 			ret.element = element{}
@@ -141,6 +141,21 @@ func tTag(c context, s []byte) (context, int) {
 }
 
 // tAttrName is the context transition function for stateAttrName.
+// allVoid reports whether the element is void under every name it may have: if
+// conditional branches chose the element name, the name that happens to be kept
+// may be a void one (<br>) while another branch opened <script>.
+func allVoid(e element) bool {
+	if !voidElements[e.name] {
+		return false
+	}
+	for _, name := range e.names {
+		if !voidElements[name] {
+			return false
+		}
+	}
+	return true
+}
+
 func tAttrName(c context, s []byte) (context, int) {
 	i, err := eatAttrName(s, 0)
 	if err != nil {
